@@ -336,6 +336,8 @@ fn fnv(s: &str) -> u64 {
 pub trait CaseT: Clone + std::fmt::Debug + Send + Serialize + DeserializeOwned + 'static {}
 impl<T: Clone + std::fmt::Debug + Send + Serialize + DeserializeOwned + 'static> CaseT for T {}
 
+static KNOWN_PRINTED: std::sync::Mutex<std::collections::BTreeSet<String>> = std::sync::Mutex::new(std::collections::BTreeSet::new());
+
 impl Global {
     pub fn new(id: &'static str, tier: Tier, seed: u64, mode: Mode, verif_dir: String, strict: bool) -> Global {
         let known: Vec<KnownEntry> = std::fs::read_to_string(format!("{}/known_findings.json", verif_dir))
@@ -774,7 +776,11 @@ impl Global {
         let wall = self.start.elapsed().as_secs_f64();
         for k in self.known.iter().filter(|k| k.property == self.id && k.status == "known") {
             if let Some(n) = self.stats.known_hits.get(&k.signature) {
-                println!("KNOWN-FINDING: property={} {} [signature {}; met {} times in this run]", self.id, k.what, k.signature, n);
+                // one line per listed finding and process (the regression tier and the main run both meet it)
+                let first = KNOWN_PRINTED.lock().map(|mut s| s.insert(k.signature.clone())).unwrap_or(true);
+                if first {
+                    println!("KNOWN-FINDING: property={} {} [signature {}; met {} times so far in this run]", self.id, k.what, k.signature, n);
+                }
             }
         }
         let mut code = 0;
